@@ -232,6 +232,36 @@ def check_targeted(case):
     return elided, len(eline)
 
 
+# ---- (c2) the same fault in a line whose text repeats itself ----------------------------------------------------------------------------
+
+REPEAT_PAIRS = [('f (f', 'f (g'), ('if (if', 'if (zz'), ('jumpif (jumpif', 'jumpxx (jumpyy'), ('xx + xx @ xx', 'xx + yy @ zz'), ('(a (a', '(a (b'), ("'s' 's'", "'s' 't'"),
+                ('1 1', '1 2'), ('f (f (f', 'f (g (h'), ('return return', 'return retxrn'), ('lbl lbl', 'lbl lbx'), ('x x', 'x y'), ('[a] [a]', '[a] [b]'),
+                ('in in', 'in im'), ('vv vv', 'vv vw'), ('xx = = xx', 'xx = = yy')]
+
+
+def check_repeated(kind, ix, indent, nprefix):
+    """Two lines of the same shape and the same fault, one built from repeating text, one from distinct names: same diagnostic position."""
+    pre, post = KINDS[kind]
+    a, b = REPEAT_PAIRS[ix]
+    out = []
+    for cond in (a, b):
+        lines = ['# c'] * nprefix + (['if 1:'] if kind == 'elif' else []) + [indent + pre + cond + post] + CLOSERS.get(kind, [])
+        text = '\n'.join(lines)
+        status, res = parse(text, 1)
+        out.append((status, res, text))
+    d = {'kind': 'repeated', 'stmt': kind, 'pair': ix, 'indent': indent, 'nprefix': nprefix, 'text': out[0][2], 'other': out[1][2]}
+    (sa, ra, ta), (sb, rb, _) = out
+    if sa != sb:
+        raise Violation('%r is %s but the same line with distinct names %r is %s' % (a, sa, b, sb), d, 'repeated-text-outcome')
+    if sa == 'error':
+        if (ra.error, ra.line_number, ra.column_number) != (rb.error, rb.line_number, rb.column_number):
+            raise Violation('%s statement %r: %s at line %d column %d, but the same line with distinct names (%r) gives %s at line %d column %d' % (
+                kind, a, ra.error, ra.line_number, ra.column_number, b, rb.error, rb.line_number, rb.column_number), d, 'repeated-text-position')
+        check_error_shape(ra, ta, 1, d)
+        check_message(ra, d)
+    return sa
+
+
 # ---- (a) token soup --------------------------------------------------------------------------------------------------
 
 SOUP_STARTS = ['if', 'elif', 'else:', 'endif', 'while', 'endwhile', 'for', 'endfor', 'function', 'async function', 'endfunction', 'break', 'continue',
@@ -416,6 +446,17 @@ def targeted_grid(tier):
 
 
 def run_shard(ctx, spec):
+    if spec['kind'] == 'targeted' and spec['part'] == 0:
+        for kind in KINDS:
+            for ix in range(len(REPEAT_PAIRS)):
+                for indent in ('', '    ', '\t'):
+                    for nprefix in (0, 3):
+                        try:
+                            st_ = check_repeated(kind, ix, indent, nprefix)
+                        except Violation as v:
+                            ctx.violation(v)
+                            st_ = 'violation'
+                        ctx.case(digest(['rep', kind, ix, indent, nprefix]), st_ == 'error', ['repeated-text', 'repeated:' + kind], {'kind': kind, 'pair': REPEAT_PAIRS[ix]})
     if spec['kind'] == 'targeted':
         grid = targeted_grid(ctx.tier)
         rnd = random.Random(ctx.seed * 101 + spec['part'])
@@ -548,6 +589,9 @@ def minimise_text(v):
 
 
 def replay(detail):
+    if detail.get('kind') == 'repeated':
+        check_repeated(detail['stmt'], detail['pair'], detail['indent'], detail['nprefix'])
+        return
     k = detail.get('kind')
     if k == 'targeted':
         check_targeted(detail)
